@@ -19,7 +19,7 @@ import gen
 import wire
 
 RULE = ("cases are triples (entry point, target kind, failure point): entry points load, load_asdict, load_all, "
-        "dump, dump_all, loads, dumps; targets str path, pathlib.Path, caller-supplied text stream; failure points: "
+        "dump, dump_all, loads, dumps; targets str path, pathlib.Path, a user-defined os.PathLike, a bytes path, an os.DirEntry, caller-supplied text stream; failure points: "
         "none, missing file / unwritable path, YAML or JSON syntax error, null value, validation error, an "
         "unserialisable metadata value while writing, a failing document at position k of a multi-document stream, the "
         "multi-document iterator abandoned after j documents (close() or garbage collection), an unknown format; "
@@ -146,7 +146,23 @@ def run(chk):
             with open(p, "w", encoding="utf-8") as f:
                 f.write(text)
             s = Stream(text)
-            return [("str", p, None), ("Path", pathlib.Path(p), None), ("stream", s, s)]
+            return [("str", p, None), ("Path", pathlib.Path(p), None), ("stream", s, s)] + [(k, t, None) for k, t in other_paths(p)]
+
+        class FsPath:
+            """an os.PathLike that is neither str nor a pathlib path"""
+            def __init__(self, p):
+                self.p = p
+
+            def __fspath__(self):
+                return self.p
+
+        def other_paths(p):
+            """further things open() accepts as a path: a user-defined PathLike, a bytes path, an os.DirEntry"""
+            out = [("fspath", FsPath(p)), ("bytes", os.fsencode(p))]
+            if os.path.exists(p):
+                with os.scandir(os.path.dirname(p)) as it:
+                    out += [("DirEntry", e) for e in it if e.name == os.path.basename(p)]
+            return out
 
         for _ in range(reps):
             # ---- readers ----
@@ -162,6 +178,17 @@ def run(chk):
                 record("load_all", kind, "missing-file", lambda: list(demes.load_all(tg)))
             for kind, tg, st in targets(texts["ok-yaml"], ".yaml"):
                 record("load", kind, "unknown-format", lambda: demes.load(tg, format="toml"), st)
+            # ---- files with unusual content at the start: a UTF-8 byte order mark, an empty file, only comments ----
+            for tag, blob in (("bom", b"\xef\xbb\xbf" + texts["ok-yaml"].encode()), ("bom-json", b"\xef\xbb\xbf" + texts["ok-json"].encode()),
+                              ("empty", b""), ("comment-only", b"# nothing\n"), ("utf16", texts["ok-yaml"].encode("utf-16"))):
+                fp = os.path.join(tmp, "odd-" + tag + ".yaml")
+                with open(fp, "wb") as fh:
+                    fh.write(blob)
+                for kind, tg in (("str", fp), ("Path", pathlib.Path(fp))):
+                    record("load", kind, "content-" + tag, lambda: demes.load(tg))
+                    record("load_asdict", kind, "content-" + tag, lambda: demes.load_asdict(tg))
+                    record("load", kind, "content-" + tag + "-as-json", lambda: demes.load(tg, format="json"))
+                    record("load_all", kind, "content-" + tag, lambda: list(demes.load_all(tg)))
             # ---- load_all: failing document at position k, iterator abandoned after j documents ----
             docs_ok = [demes.dumps(g) for g in good]
             for k in range(0, 4):
@@ -192,7 +219,7 @@ def run(chk):
                     for gname, g in (("ok", good[0]), ("unserialisable", bad_graph)):
                         p = os.path.join(tmp, "out." + fmt)
                         s = Stream()
-                        for kind, tg, st in (("str", p, None), ("Path", pathlib.Path(p), None), ("stream", s, s)):
+                        for kind, tg, st in [("str", p, None), ("Path", pathlib.Path(p), None), ("stream", s, s)] + [(k, t, None) for k, t in other_paths(p)]:
                             record("dump", kind, "%s-%s-%s" % (gname, fmt, simplified),
                                    lambda: demes.dump(g, tg, format=fmt, simplified=simplified), st)
                         record("dumps", "string", "%s-%s-%s" % (gname, fmt, simplified),
@@ -206,7 +233,7 @@ def run(chk):
                 gs = good[:k] + [bad_graph] + good[k:]
                 p = os.path.join(tmp, "multi.yaml")
                 s = Stream()
-                for kind, tg, st in (("str", p, None), ("Path", pathlib.Path(p), None), ("stream", s, s)):
+                for kind, tg, st in [("str", p, None), ("Path", pathlib.Path(p), None), ("stream", s, s)] + [(k_, t, None) for k_, t in other_paths(p)]:
                     record("dump_all", kind, "unserialisable-at-%d" % k, lambda: demes.dump_all(gs, tg), st)
 
                 def failing_iter():
